@@ -337,6 +337,52 @@ func c10Families(tier string) []explore.Family {
 			r.Violation("wrong-branch:unless", map[string]any{"template": src}, want, o.String())
 		}
 	}})
+	// --- a condition built with and/or whose left operand already decides it: the condition has that truth value
+	// (C09: and/or look only at whether their operands are nil/false), so the branch it selects is rendered -
+	// whatever evaluating the right operand would have done (fail, divide by zero, be counted)
+	guardShapes := []struct {
+		name, open, mid, end string
+		negate               bool
+	}{
+		{"if", "{% if COND %}A", "{% else %}B", "{% endif %}", false},
+		{"unless", "{% unless COND %}B", "{% else %}A", "{% endunless %}", false},
+		{"elsif", "{% if f %}X{% elsif COND %}A", "{% else %}B", "{% endif %}", false},
+		{"in-loop", "{% for i in (1..2) %}{% if COND %}A", "{% else %}B", "{% endif %}{% endfor %}", false},
+	}
+	guardRights := []string{"(x | fail)", "(x | fail) == 1", "(h | divided_by: 0) > 1", "(1..n) contains 2", "(x | probe: 9)", "(x | probe: 9) == 'x'"}
+	fams = append(fams, explore.Family{Name: "connective-decided-by-its-left-operand", Count: int64(len(guardShapes) * 2 * T * len(guardRights) * 2), Run: func(i int64, r *explore.Rec) {
+		rx := radix{i}
+		sh, isAnd, l, right, cmpLeft := guardShapes[rx.next(len(guardShapes))], rx.next(2) == 1, c10T[rx.next(T)], guardRights[rx.next(len(guardRights))], rx.next(2) == 1
+		if l.t == isAnd {
+			return // the left operand does not decide: the right one is needed
+		}
+		left := l.name
+		if cmpLeft { // the left operand as a comparison with the same truth value
+			if l.t {
+				left = "z == 0"
+			} else {
+				left = "z != 0"
+			}
+		}
+		op := map[bool]string{true: "and", false: "or"}[isAnd]
+		src := strings.Replace(sh.open+sh.mid+sh.end, "COND", left+" "+op+" "+right, 1)
+		want := map[bool]string{true: "A", false: "B"}[l.t]
+		if sh.name == "in-loop" {
+			want += want
+		}
+		c10.log = c10.log[:0]
+		r.Eval()
+		r.Transition()
+		r.Trace()
+		o := Render(c10.eng, src, c10Bind())
+		r.Class("guard/" + sh.name + "/" + op)
+		r.State("guard:" + sh.name)
+		if o.Panic != nil || o.Err != nil || o.Out != want {
+			r.Violation("wrong-branch:left-operand-decides:"+op, map[string]any{"template": src}, want, o.String())
+		} else if len(c10.log) != 0 {
+			r.Violation("evaluation-order:left-operand-decides:"+op, map[string]any{"template": src}, "right operand not evaluated", fmt.Sprint(c10.log))
+		}
+	}})
 	// --- if/unless duality for every condition expression of the C09 pair space
 	U := len(c10.u)
 	if U == 0 {
